@@ -101,6 +101,8 @@ Cond(cls, el) == [k |-> "cond", cls |-> cls, el |-> el]   \* cls: seq of <<test,
 WithHandler(h, e) == [k |-> "withhandler", h |-> h, e |-> e]
 Def(n, e)   == [k |-> "def", n |-> n, e |-> e]            \* top-level or internal define
 Body(ds, e) == [k |-> "body", ds |-> ds, e |-> e]         \* internal defines then expression
+Reset(e)    == [k |-> "reset", e |-> e]                   \* (reset e)
+Shift(n, e) == [k |-> "shift", n |-> n, e |-> e]          \* (shift n e)
 P(op, as)   == App(Var(op), as)                           \* call of a (global) primitive
 I(n)        == C(IntV(n))
 \* an iteration count that is SMALL in the reference machine and LARGE in the rendered program
@@ -123,7 +125,8 @@ MidHalf     == [k |-> "cmidhalf"]
               "hash", "hash-ref", "hash-insert", "hash-contains?", "hash-length", "string-append", "string-length",
               "string->symbol", "symbol->string", "number->string", "string=?", "list->vector", "vector->list",
               "foldr", "member", "assoc", "abs", "min", "max", "quotient", "remainder", "modulo", "even?", "odd?",
-              "string?", "vector?", "boolean?", "hash?", "list?", "char?"}
+              "string?", "vector?", "boolean?", "hash?", "list?", "char?",
+              "%mc", "%mc-set!", "%abort", "%reset", "%shift"}
 
 -----
 (* Rendering: Scheme source text and Steel's printed form of values *)
@@ -204,6 +207,8 @@ R(e) ==
                           "[" \o R(e.cls[i][1]) \o " " \o R(e.cls[i][2]) \o "]"], " ")
                        \o (IF e.el.k = "none" THEN "" ELSE " [else " \o R(e.el) \o "]") \o ")"
     [] e.k = "withhandler" -> "(with-handler " \o R(e.h) \o " " \o R(e.e) \o ")"
+    [] e.k = "reset" -> "(reset " \o R(e.e) \o ")"
+    [] e.k = "shift" -> "(shift " \o Nm(e.n) \o " " \o R(e.e) \o ")"
     [] e.k = "def" -> "(define " \o Nm(e.n) \o " " \o R(e.e) \o ")"
     [] e.k = "body" -> RSeq(e.ds) \o " " \o R(e.e)
     [] OTHER -> "#<?expr>"
@@ -231,6 +236,7 @@ Mentions(e, n) ==
     [] e.k = "cond" -> (e.el.k # "none" /\ Mentions(e.el, n))
                        \/ \E i \in 1..Len(e.cls) : Mentions(e.cls[i][1], n) \/ Mentions(e.cls[i][2], n)
     [] e.k = "withhandler" -> Mentions(e.h, n) \/ Mentions(e.e, n)
+    [] e.k \in {"reset", "shift"} -> Mentions(e.e, n)
     [] e.k = "def" -> Mentions(e.e, n)
     [] e.k = "body" -> MentionsAny(e.ds, n) \/ Mentions(e.e, n)
     [] OTHER -> FALSE
@@ -449,9 +455,25 @@ JumpPlan(cur, tgt) ==
 (* Initial states *)
 Prelude == << <<Def("x", I(0)), Def("y", I(1))>> >>
 
+\* Delimited control is defined as in scheme/stdlib.scm, on top of call/cc and one meta-continuation cell:
+\*   (*abort thunk) = (let ([v (thunk)]) ((mc) v))
+\*   (*reset thunk) = (let ([mc (mc)]) (call/cc (lambda (k) (set-mc! (lambda (v) (set-mc! mc) (k v))) (*abort thunk))))
+\*   (*shift f)     = (call/cc (lambda (k) (*abort (lambda () (f (lambda (v) (reset (k v))))))))
+\* The three closures and the cell live at reserved store locations 1..4.
+RtEnv == [n \in PrimNames |-> CASE n = "%abort" -> 2 [] n = "%reset" -> 3 [] n = "%shift" -> 4 [] OTHER -> 0]
+AbortLam == Lam(<<"thunk">>, "", App(App(Var("%mc"), << >>), <<App(Var("thunk"), << >>)>>))
+ResetLam == Lam(<<"thunk">>, "", Let(<< <<"mc", App(Var("%mc"), << >>)>> >>,
+              App(Var("call/cc"), <<Lam(<<"k">>, "",
+                  Begin(<<App(Var("%mc-set!"), <<Lam(<<"v">>, "", Begin(<<App(Var("%mc-set!"), <<Var("mc")>>), App(Var("k"), <<Var("v")>>)>>))>>),
+                          App(Var("%abort"), <<Var("thunk")>>)>>))>>)))
+ShiftLam == Lam(<<"f">>, "", App(Var("call/cc"), <<Lam(<<"k">>, "",
+              App(Var("%abort"), <<Lam(<< >>, "", App(Var("f"), <<Lam(<<"v">>, "",
+                  App(Var("%reset"), <<Lam(<< >>, "", App(Var("k"), <<Var("v")>>))>>))>>))>>))>>))
+MkClo(lam) == [k |-> "clo", ps |-> lam.ps, rest |-> lam.rest, b |-> lam.b, env |-> RtEnv]
+RtStore == <<PrimV("%no-reset"), MkClo(AbortLam), MkClo(ResetLam), MkClo(ShiftLam)>>
 InitCommon ==
   /\ ui = 0 /\ fi = 0 /\ mode = "ret" /\ ctrl = Void
-  /\ env = [n \in PrimNames |-> 0] /\ store = << >> /\ kont = << >> /\ winders = << >>
+  /\ env = RtEnv /\ store = RtStore /\ kont = << >> /\ winders = << >>
   /\ genv = [n \in {} |-> 0]
   /\ out = << >> /\ outcome = << >> /\ lastval = << >> /\ fuel = FUEL
 
@@ -542,13 +564,13 @@ StartUnit ==
      IN /\ ui' = ui + 1
         /\ genv' = g2
         /\ store' = store \o [i \in 1..Len(names) |-> Unbound]
-        /\ env' = [n \in (DOMAIN g2) \cup PrimNames |-> IF n \in DOMAIN g2 THEN g2[n] ELSE 0]
+        /\ env' = [n \in (DOMAIN g2) \cup PrimNames |-> IF n \in DOMAIN g2 THEN g2[n] ELSE RtEnv[n]]
         /\ out' = Append(out, << >>) /\ outcome' = Append(outcome, "ok") /\ lastval' = Append(lastval, "#<void>")
         /\ fi' = 1 /\ mode' = "eval" /\ ctrl' = u[1] /\ winders' = << >>
   /\ UNCHANGED <<phase, bstack, nodes, units, kont, fuel>>
 
 \* the global environment of the running unit (what free identifiers resolve to)
-UnitEnv == [n \in (DOMAIN genv) \cup PrimNames |-> IF n \in DOMAIN genv THEN genv[n] ELSE 0]
+UnitEnv == [n \in (DOMAIN genv) \cup PrimNames |-> IF n \in DOMAIN genv THEN genv[n] ELSE RtEnv[n]]
 
 \* A top-level form finished with value ctrl
 FormDone ==
@@ -650,6 +672,8 @@ EvalStep ==
             /\ ctrl' = (IF e.cls = << >> THEN (IF e.el.k = "none" THEN C(Void) ELSE e.el)
                         ELSE If(e.cls[1][1], e.cls[1][2], Cond(Tail(e.cls), e.el)))
             /\ UNCHANGED <<env, store, kont, mode>>
+       [] e.k = "reset" -> /\ ctrl' = App(Var("%reset"), <<Lam(<< >>, "", e.e)>>) /\ UNCHANGED <<env, store, kont, mode>>
+       [] e.k = "shift" -> /\ ctrl' = App(Var("%shift"), <<Lam(<<e.n>>, "", e.e)>>) /\ UNCHANGED <<env, store, kont, mode>>
        [] e.k = "withhandler" ->   \* handler expression first, then the body under the handler
             /\ ctrl' = e.h /\ kont' = Push([f |-> "wh1", e |-> e.e, env |-> env])
             /\ UNCHANGED <<env, store, mode>>
@@ -798,6 +822,10 @@ ApplyStep ==
                    ELSE /\ out' = [out EXCEPT ![ui] = Append(@, Show(as[1]))]
                         /\ ctrl' = Void /\ mode' = "ret" /\ UNCHANGED <<env, store, kont, winders>>
               [] op = "error" -> /\ Raise("Generic") /\ UNCHANGED <<env, store, kont, winders, out>>
+              [] op = "%no-reset" -> /\ Raise("Generic") /\ UNCHANGED <<env, store, kont, winders, out>>   \* "You forgot the top-level reset"
+              [] op = "%mc" -> /\ ctrl' = store[1] /\ mode' = "ret" /\ UNCHANGED <<env, store, kont, winders, out>>
+              [] op = "%mc-set!" -> /\ store' = [store EXCEPT ![1] = as[1]] /\ ctrl' = Void /\ mode' = "ret"
+                                    /\ UNCHANGED <<env, kont, winders, out>>
               \* depth of the control stack: in the reference machine the number of continuation
               \* frames (only EQUALITY of two depths is ever observed)
               [] op = "#%verif-depth" -> /\ ctrl' = IntV(Len(kont)) /\ mode' = "ret"
